@@ -23,6 +23,121 @@ pub open spec fn idat_bytes(sizes: Seq<u32>, hdr: Seq<u8>, adler: u32, stream: S
     idat_chunks(sizes, hdr + stream + be32(adler))
 }
 
+// ---- which IDAT runs the parser accepts (C06): consecutive, complete, non-empty IDAT chunks with matching CRC ----
+pub struct IdatRun { pub sizes: Seq<u32>, pub z: Seq<u8>, pub ok: bool }
+/// s starts with a complete, non-empty IDAT chunk (length, "IDAT", payload and CRC field all inside s): its payload length
+pub open spec fn idat_chunk_at(s: Seq<u8>) -> Option<int> {
+    if s.len() >= 8 && s.subrange(4, 8) == idat_tag() && be32_val(s.subrange(0, 4)) != 0 && be32_val(s.subrange(0, 4)) + 12 <= s.len() {
+        Some(be32_val(s.subrange(0, 4)) as int)
+    } else { None }
+}
+/// the maximal run of such chunks at the start of s: payload sizes, concatenated payload; ok = every CRC matched
+#[verifier::opaque]
+pub open spec fn idat_run(s: Seq<u8>) -> IdatRun
+    decreases s.len()
+{
+    match idat_chunk_at(s) {
+        None => IdatRun { sizes: Seq::<u32>::empty(), z: Seq::<u8>::empty(), ok: true },
+        Some(l) => {
+            let body = s.subrange(8, 8 + l);
+            if be32_val(s.subrange(8 + l, 12 + l)) != crc32_spec(idat_tag() + body) {
+                IdatRun { sizes: Seq::<u32>::empty(), z: Seq::<u8>::empty(), ok: false }
+            } else {
+                let r = idat_run(s.skip(12 + l));
+                IdatRun { sizes: seq![l as u32] + r.sizes, z: body + r.z, ok: r.ok }
+            }
+        }
+    }
+}
+pub open spec fn run_cat(sizes: Seq<u32>, z: Seq<u8>, r: IdatRun) -> IdatRun {
+    IdatRun { sizes: sizes + r.sizes, z: z + r.z, ok: r.ok }
+}
+pub proof fn lemma_idat_run_none(s: Seq<u8>)
+    requires idat_chunk_at(s) is None,
+    ensures idat_run(s) == (IdatRun { sizes: Seq::<u32>::empty(), z: Seq::<u8>::empty(), ok: true }),
+{ reveal_with_fuel(idat_run, 1); }
+pub proof fn lemma_idat_run_bad(s: Seq<u8>, l: int)
+    requires idat_chunk_at(s) == Some(l), be32_val(s.subrange(8 + l, 12 + l)) != crc32_spec(idat_tag() + s.subrange(8, 8 + l)),
+    ensures !idat_run(s).ok,
+{ reveal_with_fuel(idat_run, 1); }
+/// one loop iteration of the parser: a chunk with matching CRC at s.skip(pos) moves into the accumulated part
+pub proof fn lemma_idat_run_step(s: Seq<u8>, pos: int, sizes: Seq<u32>, z: Seq<u8>, l: int)
+    requires 0 <= pos <= s.len(), idat_chunk_at(s.skip(pos)) == Some(l),
+        be32_val(s.subrange(pos + 8 + l, pos + 12 + l)) == crc32_spec(idat_tag() + s.subrange(pos + 8, pos + 8 + l)),
+        idat_run(s).ok ==> idat_run(s) == run_cat(sizes, z, idat_run(s.skip(pos))),
+        idat_run(s).ok == idat_run(s.skip(pos)).ok,
+    ensures
+        idat_run(s).ok ==> idat_run(s) == run_cat(sizes.push(l as u32), z + s.subrange(pos + 8, pos + 8 + l), idat_run(s.skip(pos + 12 + l))),
+        idat_run(s).ok == idat_run(s.skip(pos + 12 + l)).ok,
+{
+    reveal_with_fuel(idat_run, 1);
+    let t = s.skip(pos);
+    assert(t.subrange(8, 8 + l) =~= s.subrange(pos + 8, pos + 8 + l));
+    assert(t.subrange(8 + l, 12 + l) =~= s.subrange(pos + 8 + l, pos + 12 + l));
+    assert(t.skip(12 + l) =~= s.skip(pos + 12 + l));
+    let r = idat_run(s.skip(pos + 12 + l));
+    let body = s.subrange(pos + 8, pos + 8 + l);
+    assert(idat_run(t) == IdatRun { sizes: seq![l as u32] + r.sizes, z: body + r.z, ok: r.ok });
+    assert(sizes + (seq![l as u32] + r.sizes) =~= sizes.push(l as u32) + r.sizes);
+    assert(z + (body + r.z) =~= (z + body) + r.z);
+}
+/// C06, IDAT: a well-formed run (every chunk non-empty, CRCs as PNG defines them) followed by bytes that do not begin a
+/// further complete IDAT chunk -- in particular followed by nothing -- is accepted as exactly that run
+pub proof fn lemma_idat_run_complete(s: Seq<u8>, sizes: Seq<u32>, z: Seq<u8>)
+    requires all_nonzero(sizes), sum_u32(sizes) == z.len(),
+        z.len() + 12 * sizes.len() <= s.len(),
+        s.subrange(0, (z.len() + 12 * sizes.len()) as int) == idat_chunks(sizes, z),
+        idat_chunk_at(s.skip((z.len() + 12 * sizes.len()) as int)) is None,
+    ensures idat_run(s) == (IdatRun { sizes: sizes, z: z, ok: true }),
+    decreases sizes.len()
+{
+    reveal_with_fuel(idat_run, 1);
+    let n = (z.len() + 12 * sizes.len()) as int;
+    if sizes.len() == 0 {
+        assert(s.skip(0) =~= s);
+        assert(sizes =~= Seq::<u32>::empty()); assert(z =~= Seq::<u8>::empty());
+    } else {
+        let k = sizes[0] as int;
+        assert(sizes[0] != 0);
+        let rest = sizes.skip(1); let zr = z.skip(k);
+        assert(sum_u32(sizes) == sizes[0] as nat + sum_u32(rest));
+        let body = z.subrange(0, k);
+        let crc = crc32_spec(idat_tag() + body);
+        lemma_be32_inverse(sizes[0]); lemma_be32_inverse(crc);
+        let head = be32(sizes[0]) + idat_tag() + body + be32(crc);
+        let pre = s.subrange(0, n);
+        assert(pre == head + idat_chunks(rest, zr));
+        assert(head.len() == k + 12);
+        assert(s.subrange(0, 4) =~= be32(sizes[0])) by { assert forall|i: int| 0 <= i < 4 implies s[i] == be32(sizes[0])[i] by { assert(s[i] == pre[i]); assert(pre[i] == head[i]); } }
+        assert(s.subrange(4, 8) =~= idat_tag()) by { assert forall|i: int| 0 <= i < 4 implies s[4 + i] == idat_tag()[i] by { assert(s[4 + i] == pre[4 + i]); assert(pre[4 + i] == head[4 + i]); } }
+        assert(s.subrange(8, 8 + k) =~= body) by { assert forall|i: int| 0 <= i < k implies s[8 + i] == body[i] by { assert(s[8 + i] == pre[8 + i]); assert(pre[8 + i] == head[8 + i]); } }
+        assert(s.subrange(8 + k, 12 + k) =~= be32(crc)) by { assert forall|i: int| 0 <= i < 4 implies s[8 + k + i] == be32(crc)[i] by { assert(s[8 + k + i] == pre[8 + k + i]); assert(pre[8 + k + i] == head[8 + k + i]); } }
+        assert(idat_chunk_at(s) == Some(k));
+        let t = s.skip(12 + k);
+        let m = (zr.len() + 12 * rest.len()) as int;
+        assert(m == n - 12 - k);
+        assert(t.subrange(0, m) =~= idat_chunks(rest, zr)) by {
+            assert forall|i: int| 0 <= i < m implies t[i] == idat_chunks(rest, zr)[i] by { assert(t[i] == pre[12 + k + i]); assert(pre[12 + k + i] == (head + idat_chunks(rest, zr))[12 + k + i]); }
+            lemma_idat_chunks_len(rest, zr);
+        }
+        assert(t.skip(m) =~= s.skip(n));
+        lemma_idat_run_complete(t, rest, zr);
+        assert(seq![k as u32] + rest =~= sizes);
+        assert(body + zr =~= z);
+    }
+}
+pub proof fn lemma_idat_chunks_len(sizes: Seq<u32>, z: Seq<u8>)
+    requires sum_u32(sizes) == z.len(),
+    ensures idat_chunks(sizes, z).len() == z.len() + 12 * sizes.len(),
+    decreases sizes.len()
+{
+    if sizes.len() > 0 {
+        let k = sizes[0] as int;
+        lemma_be32_inverse(sizes[0]); lemma_be32_inverse(crc32_spec(idat_tag() + z.subrange(0, k)));
+        lemma_idat_chunks_len(sizes.skip(1), z.skip(k));
+    }
+}
+
 pub open spec fn varints(sizes: Seq<u32>) -> Seq<u8>
     decreases sizes.len()
 {
